@@ -302,9 +302,17 @@ pub fn gen_case(t: &mut Tape, all_threads: bool) -> Case {
             roots.push("@T/rf.txt".to_string());
         }
     }
-    if t.chance(1, 8) {
-        // a root nested in another root
-        let d = g.pick_dir(t);
+    if t.chance(1, 6) {
+        // a root nested in another root; often one whose own name a filter would remove
+        // (both walkers must treat it alike: depth 0 is exempt from the filters)
+        let filtered: Vec<String> = g
+            .dirs
+            .iter()
+            .chain(g.files.iter())
+            .filter(|d| d.starts_with("@T/r") && (name_of(d).starts_with('.') || reject.iter().any(|x| x == name_of(d))))
+            .cloned()
+            .collect();
+        let d = if !filtered.is_empty() && t.bool() { filtered[t.below(filtered.len())].clone() } else { g.pick_dir(t) };
         if !roots.contains(&d) {
             roots.push(d);
         }
@@ -959,17 +967,19 @@ pub fn check(case: &Case) -> Verdict {
             _ => None,
         })
         .collect();
+    // Both walkers exempt depth 0 from every filter, but the documentation
+    // does not say so: for a root whose own name a filter would remove the
+    // independent lister abstains; the two walkers must still agree with
+    // each other (and report nothing twice).
+    let mut lister_silent: Option<&'static str> = None;
     for r in &case.roots {
-        // Both walkers exempt depth 0 from every filter, but the documentation
-        // does not say so: a root whose own name a filter would remove is
-        // outside the domain.
         let n = name_of(r);
         if o.reject.iter().any(|x| x == n) {
-            return Verdict::Reject("a root's own name is rejected by the entry filter (undocumented)");
+            lister_silent = Some("a root's own name is rejected by the entry filter (undocumented): walkers compared with each other only");
         }
         if let Some(s) = &o.std {
             if s.hidden && n.starts_with('.') {
-                return Verdict::Reject("a root's own name is hidden (undocumented)");
+                lister_silent = Some("a root's own name is hidden (undocumented): walkers compared with each other only");
             }
             if s.ignore && s.parents {
                 let hit = case.nodes.iter().any(|nd| match nd {
@@ -977,7 +987,7 @@ pub fn check(case: &Case) -> Verdict {
                     _ => false,
                 });
                 if hit {
-                    return Verdict::Reject("a root's own name occurs in an ignore rule (undocumented)");
+                    lister_silent = Some("a root's own name occurs in an ignore rule (undocumented): walkers compared with each other only");
                 }
                 if link_paths.contains(r.as_str()) {
                     return Verdict::Reject("parents(true) with a symlinked root (which parents apply is undocumented)");
@@ -1059,7 +1069,7 @@ pub fn check(case: &Case) -> Verdict {
     let mut facts: Vec<String> = vec![];
     for (i, (label, _)) in runs.iter().enumerate() {
         let dups: Vec<Key> = sets[i].iter().filter(|(k, n)| **n > 1 && exp.req.get(*k).copied().unwrap_or(0) < **n).map(|(k, _)| k.clone()).collect();
-        if !dups.is_empty() {
+        if lister_silent.is_none() && !dups.is_empty() {
             problems.push(format!("{label} reported entries more than once: {}", show_keys(&dups)));
             facts.push("duplicate-entry".to_string());
         }
@@ -1069,7 +1079,7 @@ pub fn check(case: &Case) -> Verdict {
         }
         let missing = minus(&exp.req, &sets[i]);
         let extra = minus(&sets[i], &full);
-        if !missing.is_empty() || !extra.is_empty() {
+        if lister_silent.is_none() && (!missing.is_empty() || !extra.is_empty()) {
             problems.push(format!(
                 "{label} differs from the independent listing:\n     missing (reachable, not reported): {}\n     extra (reported, not reachable under the options): {}",
                 show_keys(&missing),
@@ -1123,7 +1133,7 @@ pub fn check(case: &Case) -> Verdict {
     // link cycles: reported as an error by every walker
     let mut loop_candidates = exp.loops_req.clone();
     loop_candidates.extend(exp.loops_opt.iter().cloned());
-    for (label, w) in &runs {
+    for (label, w) in runs.iter().filter(|_| lister_silent.is_none()) {
         let got: BTreeSet<String> = w.loops.iter().cloned().collect();
         let missing: Vec<&String> = exp.loops_req.difference(&got).collect();
         let bogus: Vec<&String> = got.difference(&loop_candidates).collect();
@@ -1171,6 +1181,11 @@ pub fn check(case: &Case) -> Verdict {
         return Verdict::Fail(f);
     }
 
+    if lister_silent.is_some() {
+        let mut info = Info::new(false);
+        info.class("root_name_filtered:lister_abstains_walkers_compared_with_each_other");
+        return Verdict::Pass(info);
+    }
     // ---- accounting: which options removed something
     let variants: Vec<(&'static str, bool, Opts)> = vec![
         ("max_depth", o.max_depth.is_some(), Opts { max_depth: None, ..o.clone() }),
